@@ -10,6 +10,7 @@ import (
 	"net"
 	"os"
 	"runtime/debug"
+	"sort"
 	"strings"
 	"sync"
 	"syscall"
@@ -43,6 +44,11 @@ type batchFile struct {
 type childDone struct {
 	Done   bool              `json:"done"`
 	Probes map[string]string `json:"probes"`
+	// per proxy instance: every address its dialer was left with (hex), and the `host` label values (hex) of
+	// its dialer_* metric families as the shared registry reports them at the end of the batch
+	Dials  map[string][]string `json:"dials,omitempty"`
+	Labels map[string][]string `json:"labels,omitempty"`
+	LabelErr string            `json:"label_err,omitempty"` // a registry that can no longer be gathered
 }
 
 // recConn records what is read and how the stream ended.
@@ -176,6 +182,11 @@ func (c *Case) request() (method string, b []byte) {
 	}
 	if c.ReqUp != "" {
 		fmt.Fprintf(&sb, "Connection: Upgrade\r\nUpgrade: %s\r\n", c.ReqUp)
+	}
+	if strings.Contains(string(c.head()), "Content-Encoding: gzip") {
+		// the client asks for the coding itself: the transport relays the coded body as it is (it decodes
+		// only what it asked for on its own)
+		sb.WriteString("Accept-Encoding: gzip\r\n")
 	}
 	body := ""
 	if method == "POST" {
@@ -374,6 +385,47 @@ func (e *env) errorCounts() map[string]float64 {
 	return out
 }
 
+// dialLabels reports, for every proxy instance the batch went through, the addresses its dialer saw and the
+// `host` label values of the dialer's metric families (dialer_errors_total, dialer_retries_total,
+// dialer_cx_total, dialer_cx_active).
+func (e *env) dialLabels() (dials, labels map[string][]string, gatherErr string) {
+	dials, labels = map[string][]string{}, map[string][]string{}
+	e.dialMu.Lock()
+	for name, m := range e.dials {
+		for a := range m {
+			dials[name] = append(dials[name], core.HexS(a))
+		}
+		sort.Strings(dials[name])
+	}
+	e.dialMu.Unlock()
+	for name, reg := range e.regs {
+		if _, ok := e.used.Load(name); !ok && name != "direct" {
+			continue
+		}
+		mfs, err := reg.Gather()
+		if err != nil {
+			gatherErr = name + ": " + err.Error()
+			continue
+		}
+		seen := map[string]bool{}
+		for _, mf := range mfs {
+			if !strings.HasPrefix(mf.GetName(), promNamespace+"_dialer_") {
+				continue
+			}
+			for _, m := range mf.GetMetric() {
+				for _, lp := range m.GetLabel() {
+					if lp.GetName() == "host" && !seen[lp.GetValue()] {
+						seen[lp.GetValue()] = true
+						labels[name] = append(labels[name], core.HexS(lp.GetValue()))
+					}
+				}
+			}
+		}
+		sort.Strings(labels[name])
+	}
+	return dials, labels, gatherErr
+}
+
 // runClient feeds hostile bytes to a listener and records everything that comes back.
 func (e *env) runClient(c *Case) *Obs {
 	o := &Obs{ID: c.ID}
@@ -551,7 +603,7 @@ func (e *env) probeOne(name string, p *rig.Proxy) string {
 	defer cl.close()
 	req := "GET http://" + probeHost + "/probe HTTP/1.1\r\nHost: " + probeHost + "\r\nCase-Id: probe-" + name + "\r\n\r\n"
 	switch {
-	case name == "tls":
+	case name == "tls" || name == "htls":
 		if err := cl.enterTLSListener(); err != nil {
 			return "tls: " + err.Error()
 		}
@@ -642,6 +694,8 @@ func childMain(root, file string) {
 	for _, c := range seqCases {
 		emit(e.runOne(c))
 	}
-	emit(childDone{Done: true, Probes: e.probeAll()})
+	done := childDone{Done: true, Probes: e.probeAll()}
+	done.Dials, done.Labels, done.LabelErr = e.dialLabels()
+	emit(done)
 	os.Exit(0)
 }
